@@ -175,6 +175,10 @@ impl Check for RigCheck {
             // A: one-shot.
             let a_complete = run_oneshot(&mut ca, &solo, ctx, &mut findings);
             let a_failed = !findings.is_empty();
+            if !a_failed && a_complete {
+                // (Input ends still open here; closed in the chunked run.)
+                ca.finish();
+            }
             if let Some(r) = &ca.reference {
                 if !a_failed {
                     ctx.count("reference_checked_oneshot");
@@ -213,6 +217,9 @@ impl Check for RigCheck {
             let nf = findings.len();
             let b_complete = run_drip(&mut cb, &solo, src, ctx, &opts, Some(&oracle), &mut findings, &mut stats);
             let b_fatal = findings[nf..].iter().any(|f| f.key.contains(":panic") || f.key.ends_with(":err"));
+            if !b_fatal && b_complete {
+                cb.finish();
+            }
             if b_fatal {
                 if let Some(f) = findings[nf..].iter().find(|f| f.key.contains(":panic") || f.key.ends_with(":err")).map(|f| f.msg.clone()) {
                     if cb.reference.is_some() {
